@@ -55,6 +55,8 @@ type judgeStats struct {
 	initOK, initFail, secondInitRefused  int
 	unexpectedInitFail, reinitAfterClose int
 	d23                                  int
+	srvDied, srvDiedInitialized          int // server deaths injected (all / while the model was initialized)
+	closeAfterDeath, opsAfterDeath       int // Close / operations while the server was dead and the model initialized
 }
 
 // judgeHistory replays the recorded history against the model and reports every disagreement.
@@ -75,6 +77,10 @@ func judgeHistory(r *vh.Run, h *HistObs, st *judgeStats) {
 	}
 	fresh := true     // nothing happened yet that could have damaged the transport
 	everClosed := false
+	// uncertain: the server died while the client was initialized. Whether the client notices (and falls back to
+	// disconnected) or not (and stays initialized) the statement leaves open; until the next Close or successful
+	// Initialize both are accepted and calls are only counted. Close ends it: the client must be uninitialized.
+	uncertain := false
 	for i := range h.Steps {
 		s := &h.Steps[i]
 		st.steps++
@@ -85,7 +91,30 @@ func judgeHistory(r *vh.Run, h *HistObs, st *judgeStats) {
 			r.Inconclusive(fmt.Sprintf("client %s history %d step %d (%s): wire count not established: %s", ck, h.Idx, i, s.Step, s.Note))
 		}
 		switch s.Kind {
+		case "srvdie":
+			class = "server-died"
+			fresh = false
+			st.srvDied++
+			if m.state == sInitialized {
+				st.srvDiedInitialized++
+				uncertain = true
+			}
+			r.Distinct(fmt.Sprintf("client|%s|server-dies|%s|%s", ck, before, phase))
 		case "init":
+			if uncertain {
+				class = "init-after-server-death"
+				if s.OK {
+					if s.Mode == mError || s.Mode == mMalA || s.Mode == mDown {
+						r.Violation(fmt.Sprintf("C16|client|%s|initialize|answer=%s|reported-success", ck, s.Mode),
+							fmt.Sprintf("%s client: Initialize returned success although the server's behaviour was %q", ck, s.Mode), wit(i))
+					}
+					// the client noticed the death and shook hands again (or its server came back): initialized for certain
+					m.state, m.phase = sInitialized, ""
+					uncertain = false
+				}
+				r.Distinct(fmt.Sprintf("client|%s|init-after-server-death|mode=%s|ok=%v", ck, s.Mode, s.OK))
+				break
+			}
 			if before == sInitialized {
 				class = "second-initialize"
 				if s.OK {
@@ -126,6 +155,12 @@ func judgeHistory(r *vh.Run, h *HistObs, st *judgeStats) {
 			m.initialize(s.OK)
 			r.Distinct(fmt.Sprintf("client|%s|init|%s|mode=%s|ok=%v", ck, phase, s.Mode, s.OK))
 		case "op":
+			if uncertain {
+				class = "op-after-server-death"
+				st.opsAfterDeath++
+				r.Distinct(fmt.Sprintf("client|%s|op=%s|after-server-death|ok=%v", ck, s.Op, s.OK))
+				break
+			}
 			if !m.opAllowed() {
 				class = "op-refused"
 				switch {
@@ -157,6 +192,11 @@ func judgeHistory(r *vh.Run, h *HistObs, st *judgeStats) {
 			}
 		case "close":
 			class = "close"
+			if uncertain {
+				class = "close-after-server-death"
+				st.closeAfterDeath++
+				uncertain = false
+			}
 			m.close()
 			fresh = false
 			everClosed = true
@@ -164,6 +204,12 @@ func judgeHistory(r *vh.Run, h *HistObs, st *judgeStats) {
 		case "getstate":
 			class = "getstate"
 			r.Distinct(fmt.Sprintf("client|%s|getstate|%s|%s", ck, before, phase))
+		}
+		if uncertain {
+			if s.State != sInitialized && s.State != sDisconnected {
+				r.Count("client_"+ck+"_other_state_while_server_dead", 1)
+			}
+			continue
 		}
 		if s.State != m.state {
 			r.Violation(fmt.Sprintf("C16|client|%s|state|after=%s|expected=%s|got=%s", ck, class, m.state, s.State),
